@@ -194,6 +194,8 @@ def confirm(v):
             x, s0 = mdl['X'] // 10, 0
         else:
             x, s0 = mdl['x'], mdl['s0']
+            if abs(s0) > 1000:
+                s0 = 0          # the base scale only shifts the result; never materialise 10^(2^60) in the exact oracle
         out = H.replay_lines(['binop\tDiv\tBigDecimal\tBigDecimal\t%s\t%s' % (H.dec_str(x, s0), H.dec_str(t['den'], 0))], cfg_env=env)[0]
         if out.startswith('PANIC'):
             return True, out
@@ -258,6 +260,11 @@ def main(tier):
             dens = [3, 7, 8, 11, 16, 97, 125, 999]
         for d in dens:
             tasks.append(dict(base, kind='division', den=d, K=6))
+        # denominators at the machine-word boundaries (a native-integer fast path enabled by a small configured precision
+        # would have to survive these), with numerators up to 20 digits
+        U64 = 2 ** 64 - 1
+        for d in [2 ** 32 - 1, 2 ** 32 + 1, 10 ** 9 + 7, U64 // 10, U64 // 10 + 1, 7 * 10 ** 18, 2 ** 63 - 1, 2 ** 63, 10 ** 19 + 1, U64, U64 + 2, 2 ** 127 - 1] + ([] if tier == 'quick' else [3 * 10 ** 18 + 1, 9 * 10 ** 18 + 7, 2 ** 96 + 1]):
+            tasks.append(dict(base, kind='division', den=d, K=20))
         if cfg['P'] <= 3:
             for d in ([3, 7, 8, 9, 11, 64, 999] if tier == 'quick' else list(range(1, 1000))):
                 tasks.append(dict(base, kind='div_unrolled', den=d, K=3 if tier == 'quick' else 4))
